@@ -12,6 +12,8 @@ mod sync_metrics;
 #[doc(no_inline)]
 pub use p2panda_core::cbor::DecodeError;
 
+#[cfg(p2panda_p2panda_verif)]
+pub use acked::Acked;
 pub use acked::AckedError;
 pub(crate) use ephemeral_stream::ephemeral_stream;
 pub use ephemeral_stream::{
